@@ -1,12 +1,17 @@
 import Driver.Common
 import Logrange.Model.RangedIter
 import Logrange.Model.PartScan
+import Logrange.Model.RebuildHist
+import Logrange.Model.ITree
+import Logrange.Model.PartHist
+import Logrange.Model.IdxTree
 /-! Model driver for C02 (time-range queries). Requests (one per line):
 
 block tree / abstract points (unit)
 * `tree.reset` · `tree.add t0 i0 t1 i1` → `ok|adderr` (also applied to the `Points` list)
 * `tree.points` → `c|NC ts:idx,…` (traversal; `NC` = intervals not contiguous) · `pts.points` → the `Points` list
-* `tree.probe t` → `greq=<idx|all> less=<idx|all> pgreq=<idx|all> pless=<idx|all> level=<n>`
+* `itree.points` → the point list of the inductive tree model `ITree`
+* `tree.probe t` → `greq=<idx|all> less=<idx|all> pgreq=<idx|all> pless=<idx|all> level=<n> igreq= iless= ilevel=` (i… = `ITree`)
 
 selector (unit)
 * `sel.adv min max count pos` · `sel.red min max count pos` → `<pos> <0|1>`
@@ -32,6 +37,7 @@ structure DS where
   store : IdxTree.Store := #[]
   root : Option Nat := none
   pts : List Points.Pt := []
+  itree : Option ITree.T := some (.leaf [])   -- the inductive tree model (the one the tree theorems are about)
   cidx : CIndex.St := {}
   wj : WriteLoop.J := { maxSize := 100 }
   rcidx : CIndex.St := {}
@@ -44,6 +50,8 @@ structure DS where
   layout : Option (Selector.Journal × Array (Array Int) × Array Nat) := none
   rg : Option RangedIter.St := none
   pendingReb : List Nat := []
+  ph : List PartHist.PChunk := []     -- the Points-level partition model of the history theorem (`PartHist`)
+  phLive : Bool := true              -- no rebuild has happened yet (PartHist has no rebuild step)
 
 def ptStr (ts : Int) (idx : Nat) : String := toString ts ++ ":" ++ toString idx
 
@@ -115,17 +123,22 @@ def refresh (d : DS) (st : RangedIter.St) : DS × RangedIter.St :=
 
 def step (d : DS) (toks : List String) : DS × String :=
   match toks with
-  | ["tree.reset"] => ({ d with store := #[], root := none, pts := [] }, "ok")
+  | ["tree.reset"] => ({ d with store := #[], root := none, pts := [], itree := some (.leaf []) }, "ok")
   | ["tree.add", a, b, c, e] =>
     (match a.toInt?, b.toNat?, c.toInt?, e.toNat? with
      | some t0, some i0, some t1, some i1 =>
        let (s', r') := IdxTree.add 8 d.store d.root ⟨⟨t0, i0⟩, ⟨t1, i1⟩⟩
        let pts' := Points.add d.pts ⟨⟨t0, i0⟩, ⟨t1, i1⟩⟩
+       let it' := d.itree.bind (fun t => ITree.add ITree.maxRecs t ⟨⟨t0, i0⟩, ⟨t1, i1⟩⟩)
        (match r' with
-        | some r => ({ d with store := s', root := some r, pts := pts' }, "ok")
-        | none => ({ d with store := s', pts := pts' }, "adderr"))
+        | some r => ({ d with store := s', root := some r, pts := pts', itree := it' }, "ok")
+        | none => ({ d with store := s', pts := pts', itree := it' }, "adderr"))
      | _, _, _, _ => (d, "bad-op"))
   | ["tree.points"] => (d, treePointsStr d)
+  | ["itree.points"] =>
+    (d, match d.itree with
+      | none => "adderr"
+      | some t => let ps := ITree.points t; if ps.isEmpty then "empty" else ",".intercalate (ps.map (fun p => ptStr p.ts p.idx)))
   | ["pts.points"] => (d, if d.pts.isEmpty then "empty" else ",".intercalate (d.pts.map (fun p => ptStr p.ts p.idx)))
   | ["tree.probe", t] =>
     (match t.toInt?, d.root with
@@ -133,7 +146,11 @@ def step (d : DS) (toks : List String) : DS × String :=
        let sh (x : Option IdxTree.Rec) : String := match x with | none => "all" | some (y : IdxTree.Rec) => toString y.idx
        let pg := if Points.cntLE d.pts ts == 0 then "all" else toString (Points.grEqPos d.pts ts)
        let pl := match Points.lessPos d.pts ts with | none => "all" | some i => toString i
-       (d, s!"greq={sh (IdxTree.grEq 64 d.store r ts)} less={sh (IdxTree.less 64 d.store r ts)} pgreq={pg} pless={pl} level={(d.store[r]!).level}")
+       let shp (x : Option Points.Pt) : String := match x with | none => "all" | some y => toString y.idx
+       let (ig, il, ilv) := match d.itree with
+         | some t => (shp (ITree.grEq t ts), shp (ITree.less t ts), toString (ITree.rootLevel t))
+         | none => ("err", "err", "err")
+       (d, s!"greq={sh (IdxTree.grEq 64 d.store r ts)} less={sh (IdxTree.less 64 d.store r ts)} pgreq={pg} pless={pl} level={(d.store[r]!).level} igreq={ig} iless={il} ilevel={ilv}")
      | _, _ => (d, "bad-op"))
   | ["sel.adv", a, b, c, p] =>
     (match a.toNat?, b.toNat?, c.toNat?, p.toNat? with
@@ -171,7 +188,7 @@ def step (d : DS) (toks : List String) : DS × String :=
           let (st, k) := Selector.updatePossWith rmin rmax ch.minTs ch.maxTs (CIndex.grEqAns d.cidx cid) (CIndex.lessAns d.cidx cid) {}
           (d, s!"{st.minPos} {st.maxPos} {k}"))
      | _, _, _ => (d, "bad-op"))
-  | ["rw.reset", m] => ({ d with wj := { maxSize := m.toNat?.getD 100 }, rcidx := {}, rcidx2 := {}, rcidx3 := {}, rcidx4 := {}, rebuiltNeg := false, rg := none, allTs := #[], batches := [], layout := none }, "ok")
+  | ["rw.reset", m] => ({ d with wj := { maxSize := m.toNat?.getD 100 }, rcidx := {}, rcidx2 := {}, rcidx3 := {}, rcidx4 := {}, rebuiltNeg := false, ph := [], phLive := true, rg := none, allTs := #[], batches := [], layout := none }, "ok")
   | ["rw.writenoindex", spec] =>
     -- the records are in the journal (readable) but `onWriteCIndex` has not run yet (writer parked before it)
     let recs := parseRecs spec
@@ -183,8 +200,23 @@ def step (d : DS) (toks : List String) : DS × String :=
     let (_, ci2, _, _) := RangedIter.writeWith WriteLoop.IW.repaired d.wj d.rcidx2 recs
     let (_, ci3, _, _) := RangedIter.write d.wj d.rcidx3 recs
     let (_, ci4, _, _) := RangedIter.writeWith WriteLoop.IW.repaired d.wj d.rcidx4 recs
-    ({ d with wj := j', rcidx := ci', rcidx2 := ci2, rcidx3 := ci3, rcidx4 := ci4, allTs := d.allTs ++ (recs.map (·.ts)).toArray, batches := (recs.map (·.ts)) :: d.batches, layout := none, pendingReb := bad },
-      WriteLoop.render out ++ (if bad.isEmpty then "" else " CORRUPTED " ++ ",".intercalate (bad.map toString)))
+    -- the same call on the Points-level partition model: one piece per OnWrite notification
+    let tsArr := (recs.map (·.ts)).toArray
+    let (pieces, _) := out.calls.foldl (fun (acc : List PartHist.Piece × Nat) (call : Nat × Nat × Nat × Int × Int) =>
+        let (fi, la, _, _, _) := call
+        let k := la + 1 - fi
+        (acc.1 ++ [({ newChunk := fi == 0, l := (tsArr.extract acc.2 (acc.2 + k)).toList } : PartHist.Piece)], acc.2 + k)) ([], 0)
+    let ph' := PartHist.writeCall CIndex.sparseSpace CIndex.bigGap d.ph pieces
+    let phLive := d.phLive && bad.isEmpty
+    let allTs' := d.allTs ++ tsArr
+    let phOk : Bool :=
+      if !phLive || RangedIter.classNonMonotone allTs'.toList then true else
+      ph'.length == ci'.chunks.length &&
+      (ph'.zip ci'.chunks).all (fun ((pc : PartHist.PChunk), (ch : CIndex.Chk)) =>
+        pc.idx.hull == some ⟨ch.minTs, ch.maxTs⟩ && pc.idx.lastRec == ch.lastRec && pc.idx.corrupted == ch.corrupted &&
+        (ch.corrupted || pc.idx.pts == (match ch.root with | some t => ITree.points t | none => [])))
+    ({ d with ph := ph', phLive := phLive, wj := j', rcidx := ci', rcidx2 := ci2, rcidx3 := ci3, rcidx4 := ci4, allTs := d.allTs ++ (recs.map (·.ts)).toArray, batches := (recs.map (·.ts)) :: d.batches, layout := none, pendingReb := bad },
+      WriteLoop.render out ++ (if phOk then "" else " PARTHIST-DIFFERS") ++ (if bad.isEmpty then "" else " CORRUPTED " ++ ",".intercalate (bad.map toString)))
   | "rw.rebuild" :: _ | "rw.autorebuild" :: _ =>
     let (d, lay) := withLayout d
     let auto := toks.head? == some "rw.autorebuild"
@@ -197,7 +229,20 @@ def step (d : DS) (toks : List String) : DS × String :=
         let i := (lay.1.findIdx? (·.id == id * 10)).getD 0
         CIndex.rebuildRepaired ci id ((lay.2.1[i]?).getD #[]).toList) ci
     let neg := ids.any (fun id => let i := (lay.1.findIdx? (·.id == id * 10)).getD 0; ((lay.2.1[i]?).getD #[]).any (· < 0))
-    ({ d with rcidx := reb d.rcidx, rcidx2 := reb d.rcidx2, rcidx3 := reb3 d.rcidx3, rcidx4 := reb3 d.rcidx4, rebuiltNeg := d.rebuiltNeg || neg, pendingReb := if auto then [] else d.pendingReb }, "ok")
+    let ci' := reb d.rcidx
+    -- the flat (Points-level) rebuild the theorem `rebuild_sound` is about must give the level-0 records of the tree
+    let flatBad := ids.filter (fun id =>
+      let i := (lay.1.findIdx? (·.id == id * 10)).getD 0
+      let tss := ((lay.2.1[i]?).getD #[]).toList
+      let flat := RebuildHist.rebuildPts Generated.C02.sparseSpace Generated.C02.rebuildSegmentMaxInit tss
+      let tree : List Points.Pt := match CIndex.findChk ci' id with
+        | some ch => (match ch.root with
+          | some t => ITree.points t
+          | none => [])
+        | none => []
+      flat != tree)
+    ({ d with phLive := d.phLive && ids.isEmpty, rcidx := ci', rcidx2 := reb d.rcidx2, rcidx3 := reb3 d.rcidx3, rcidx4 := reb3 d.rcidx4, rebuiltNeg := d.rebuiltNeg || neg, pendingReb := if auto then [] else d.pendingReb },
+      if flatBad.isEmpty then "ok" else "flat-differs " ++ ",".intercalate (flatBad.map toString))
   | ["rw.hull"] =>
     (d, " ".intercalate (d.wj.chunks.map (fun c => match CIndex.findChk d.rcidx c.id with
         | some ch => s!"{c.id}:{c.cnt}:{ch.minTs}:{ch.maxTs}"
@@ -227,7 +272,7 @@ def step (d : DS) (toks : List String) : DS × String :=
          (if RangedIter.classOpenLower lo d.allTs.toList then ["3"] else []) ++
          (if d.rebuiltNeg then ["41"] else []) ++
          (if RangedIter.classNonMonotone d.allTs.toList then
-            (if d.rcidx.chunks.any (fun c => match c.root with | some r => (d.rcidx.store[r]!).level > 0 | none => false) then ["4", "24"] else ["4"])
+            (if d.rcidx.chunks.any (fun c => match c.root with | some t => ITree.rootLevel t > 0 | none => false) then ["4", "24"] else ["4"])
           else [])
        let clsS := if cls.isEmpty then "-" else ",".intercalate cls
        -- the abstract scan the partition theorem is proved about (PartScan: fold over chunks of the window positions,
@@ -268,7 +313,7 @@ def step (d : DS) (toks : List String) : DS × String :=
         match (cnts.getD i "-").toNat?, lay.1[i]? with
         | some cnt, some ck => rebuildF ci (ck.id / 10) (((lay.2.1[i]?).getD #[]).extract 0 cnt).toList
         | _, _ => ci) ci
-    ({ d with rcidx := reb CIndex.rebuild d.rcidx, rcidx2 := reb CIndex.rebuild d.rcidx2, rcidx3 := reb CIndex.rebuildRepaired d.rcidx3, rcidx4 := reb CIndex.rebuildRepaired d.rcidx4 }, "ok")
+    ({ d with phLive := false, rcidx := reb CIndex.rebuild d.rcidx, rcidx2 := reb CIndex.rebuild d.rcidx2, rcidx3 := reb CIndex.rebuildRepaired d.rcidx3, rcidx4 := reb CIndex.rebuildRepaired d.rcidx4 }, "ok")
   | ["c.open", a, b] =>
     -- a server-held (cached) cursor: selector statuses, iterator and filter state live across pages and writes
     (match optBound a, optBound b with
